@@ -30,7 +30,8 @@ CLEAR = ['bbb_v7', 'bbb_a1', 'bbb_t1']
 ENC = ['bbb_v7_enc', 'bbb_a1_enc']
 Q_DRMS = ['none', 'all', 'playready', 'clearkey', 'marlin', 'playready-moov', 'playready-cenc', 'playready-pro-cenc',
           'clearkey-moov', 'clearkey-cenc', 'all-moov', 'all-cenc', 'playready,clearkey', 'marlin,clearkey-moov',
-          'playready-cenc,clearkey-moov']
+          'playready-cenc,clearkey-moov', 'playready-cenc,clearkey', 'clearkey-cenc,playready',
+          'marlin-cenc,playready,clearkey', 'clearkey,playready-cenc']
 VERSIONS = [None, '1.0', '2.0', '3.0', '4.0']
 
 
@@ -126,17 +127,31 @@ def _run(media, mode, drm, version, stored, pro_blob):
     return mr.LiveMedia().generate_init_segment(mf, mode, opts), opts
 
 
-def _expected_pssh(opts, encrypted):
-    """(system id hex, version, has_data) per appended pssh, from the parsed DRM selection only"""
+def _selection_from_text(drm):
+    """the harness's own reading of the documented drm=<...> grammar (not the repository's parser):
+    'all[-loc..]' or a comma separated list of <system>[-loc..]; no locations = every location"""
+    drm = drm.lower()
+    every = {'cenc', 'moov', 'pro'}
+    if drm in ('', 'none'):
+        return {}
+    if drm.startswith('all'):
+        locs = set(drm.split('-')[1:]) or every
+        return {n: set(locs) for n in ('playready', 'marlin', 'clearkey')}
+    out = {}
+    for item in drm.split(','):
+        parts = item.split('-')
+        out[parts[0]] = set(parts[1:]) or set(every)
+    return out
+
+
+def _expected_pssh(drm, encrypted):
+    """(system id hex, version, has_data) per appended pssh, from the request's drm text"""
     if not encrypted:
         return []
     want = []
-    sel = {}
-    for name, locations in opts.drmSelection:
-        sel[name] = {getattr(l, 'value', str(l)).lower() if not isinstance(l, str) else l for l in locations}
+    sel = _selection_from_text(drm)
     for name in sorted(sel):          # DrmContext iterates systems sorted by name
-        locs = {str(l).split('.')[-1].lower() for l in sel[name]}
-        if 'moov' not in locs:
+        if 'moov' not in sel[name]:
             continue
         if name == 'clearkey':
             want.append(('1077efecc0b24d02ace33c1e52e2fb4b', 1, False))
@@ -145,7 +160,7 @@ def _expected_pssh(opts, encrypted):
     return want
 
 
-def _check(sx, stored, out, media, mode, opts, pro_blob, encrypted):
+def _check(sx, stored, out, media, mode, opts, pro_blob, encrypted, drm):
     from pysx.core import sx_and
     try:
         root = mk.Root(out)
@@ -171,7 +186,7 @@ def _check(sx, stored, out, media, mode, opts, pro_blob, encrypted):
     kids_out = list(moov.children)
     kids_in = list(smoov.children)
     n_stored_pssh = sum(1 for c in kids_in if c.type == 'pssh')
-    want = _expected_pssh(opts, encrypted)
+    want = _expected_pssh(drm, encrypted)
     appended = kids_out[len(kids_in):]
     body = kids_out[:len(kids_in)]
     # every stored child of moov survives in order, byte-identical, except mvex in live mode (mehd removed)
@@ -231,7 +246,7 @@ def h_init(sx, media, mode, drm, version):
     def ops(data):
         resp, opts = _run(media, mode, drm, version, data, pro_pinned)
         out = resp[0]
-        _check(None, data, out, media, mode, opts, pro_pinned, encrypted)
+        _check(None, data, out, media, mode, opts, pro_pinned, encrypted, drm)
         from dashlive.mpeg import mp4
         from pysx import iomodel
         t = mp4.Mp4Atom.load(iomodel.SxBufferedReader(iomodel.SxBytesIO(data)),
@@ -249,7 +264,7 @@ def h_init(sx, media, mode, drm, version):
         sx.fail('C10.exc', detail={'response': str(resp)[:100]})
         return
     sx.prove(True, 'C10.exc')
-    _check(sx, buf, resp[0], media, mode, opts, pro_blob, encrypted)
+    _check(sx, buf, resp[0], media, mode, opts, pro_blob, encrypted, drm)
     sx.note('expect', {'out_len': len(resp[0])})
 
 
@@ -355,6 +370,6 @@ def replay(case):
     if status != 200:
         return {'violated': label == 'C10.exc', 'observed': {'status': status}}
     probe = _Probe()
-    _check(probe, stored, body, params['media'], params['mode'], opts, pro, params['media'] in ENC)
+    _check(probe, stored, body, params['media'], params['mode'], opts, pro, params['media'] in ENC, params['drm'])
     bad = [b for b in probe.bad if b[0] == label]
     return {'violated': bool(bad), 'observed': {'violated_obligations': [[b[0], str(b[1])[:300]] for b in probe.bad]}}
